@@ -19,6 +19,8 @@ def families(quick):
     ]
     # seven sources whose first keys hide small keys under larger ones in insertion order (heap sift-up)
     fam.append([[A], [B], [b"x"], [C], [b"y"], [b"z"], [b"d"]])
+    # the same with sources that continue with large keys, so that heap_replace (not heap_pop) follows the push phase
+    fam.append([[A, b"za"], [B, b"zb"], [b"x"], [C, b"zc"], [b"y"], [b"z"], [b"d"]])
     if not quick:
         fam.append([[b"g"], [b"f"], [b"e"], [b"d"], [C], [B], [A]])
         fam.append([[A, b"x"], [B], [b"x"], [C], [b"y"], [b"z"], [b"d"], [A]])
